@@ -52,6 +52,27 @@ def cases_for(tier, rng):
         base = rng.choice([root, root[:-1], root + (rng.randrange(5),), (mib[rng.randrange(len(mib))][:-1] if mib else root), (1, 3, 6)])
         mr, cap = rng.choice(params)
         out.append({"mib": mib, "base": base, "op": rng.choice(["getnext", "getbulk", "fetch"]), "mr": mr, "cap": cap})
+    # subtree roots whose last arc is 127, 16383, 2097151, 268435455 (all-ones base-128 digits), with neighbours on both sides;
+    # and tables whose instance OIDs are longer than 128 BER octets
+    for arc in (127, 16383, 2097151, 268435455, 128, 16384):
+        for _ in range(4 if tier == "quick" else 30):
+            root = P + (arc,)
+            mib = set()
+            for _ in range(rng.choice([3, 6, 12])):
+                mib.add(root + tuple(rng.randrange(0, 4) for _ in range(rng.randint(1, 3))))
+            mib.add(P + (arc + 1, 0))
+            mib.add(P + (arc + 1, 5, 1))
+            mib.add(P[:-1] + (P[-1] + 1, 0))
+            mib.add(P + (arc - 1, 7))
+            mr, cap = rng.choice(params)
+            out.append({"mib": sorted(mib), "base": root, "op": rng.choice(["getnext", "getbulk", "fetch"]), "mr": mr, "cap": cap})
+    for _ in range(12 if tier == "quick" else 200):
+        root = P + (rng.randrange(1, 50),)
+        idx = tuple(rng.randrange(128, 16384) for _ in range(rng.choice([63, 64, 65, 70, 100])))
+        mib = set(root + (1,) + idx[:-1] + (idx[-1] + k,) for k in range(rng.choice([2, 4, 6])))
+        mib.add(root + (2, 1))
+        mr, cap = rng.choice(params)
+        out.append({"mib": sorted(mib), "base": root, "op": rng.choice(["getnext", "getbulk", "fetch"]), "mr": mr, "cap": cap})
     # histories on one session (each needs a short real timeout, so they are few)
     extra = []
     for k, c in enumerate(out):
